@@ -156,6 +156,14 @@ UNITS['c01'] = {
         ('type_check_skips_arrays', '} else if let Some(array) = syn::Array::cast(node) { check_array(array) }', '}', ['C01.check.type_check']),
         ('schema_like_admits_string', '| Expr::Recursion(_) )', '| Expr::Recursion(_) | Expr::String(_) )', ['C01.pred', 'C01.cast']),
         ('cast_object_through_content', 'Expr::Object(o) => *o, Expr::Reference(_, v) => cast_object(*v),', 'Expr::Object(o) => *o, Expr::Reference(_, v) => cast_object((Expr::Number(0), v.1)),', ['C01.cast.object']),
+        # C08: the evaluator's scope stack
+        ('rec_scope_not_popped', 'ctx.pop_scope(); ctx.refs.insert(', 'ctx.refs.insert(', ['C08.eval.scopes_balanced']),
+        ('rec_binder_not_bound', 'scope.insert(rec.binding().ident(), recursion);', '', ['C08.eval.recursion.frame_holds_the_binder']),
+        ('binding_read_from_outermost_frame', 'let __x9_1_0 = &self.scopes[__k9_1];', 'let __x9_1_0 = &self.scopes[0];', ['C08.eval.lookup_binding']),
+        ('push_scope_pushes_nothing', 'self.scopes.push((self.scope_id_seq, scope));', '', ['C08.eval.push_scope']),
+        ('callee_frame_pushed_over_an_extra_frame', "ctx.push_scope(scope); // the callee's body is evaluated under exactly one more frame than the caller's",
+         "ctx.push_scope(HashMap::new()); ctx.push_scope(scope); // the callee's body is evaluated under exactly one more frame than the caller's", ['C08.eval.application.one_frame_for_the_callee', 'C08.eval.scopes_balanced']),
+        ('variable_evaluates_the_use_not_the_binder', 'Definition::External(ext) => eval_any(ctx, ext.node(ctx.mods), ann),', 'Definition::External(ext) => eval_any(ctx, variable.node(), ann),', ['C08.eval.variable']),
     ],
 }
 
@@ -227,26 +235,37 @@ PROPS = {
              'why': 'stdlib::import is under an ASSUMED contract (declares the built-ins, unqualified, into the innermost scope); Verus rejects its array-of-Rc<dyn> body'},
             {'name': 'P8.core_define', 'kind': 'pinned_text', 'file': 'oal-compiler/src/tree.rs', 'path': [('impl', 'impl Core'), ('fn', 'define')],
              'why': 'rule R-ghost models `core_mut().define(d)` as "the definition slot of the node becomes d"'},
+            {'name': 'P1.dispatcher', 'kind': 'pinned_text', 'file': 'oal-compiler/src/eval.rs', 'path': [('fn', 'eval_any')],
+             'why': 'eval_any is assumed (not verified): its assumed frame "a successful evaluation leaves the scope stack as it found it" rests on the dispatched eval_* functions'},
         ],
-        'technique': 'Verus contracts on the real scope stack (env.rs) and on the real resolver walk (resolve.rs): every use is set to the innermost open binder of its name, for all syntax trees',
-        'level_text': 'Deductive proof (Verus/Z3), for every module set and every syntax tree, of the STATIC half of the property on the real code: '
+        'technique': 'Verus contracts on the real scope stack (env.rs), the real resolver walk (resolve.rs) and the real evaluator scope functions (eval.rs): every use is set to the innermost open binder of its name, for all syntax trees; '
+                     'the evaluator keeps a stack discipline under which a callee frame holds exactly the callee\'s parameters',
+        'level_text': 'Deductive proof (Verus/Z3), for every module set and every syntax tree. STATIC half, proved on the real code: '
                       '(1) Env::{new,declare,lookup,open,close} against an abstract stack of maps (lookup is innermost-first; declare touches only the innermost scope and reports a previous definition; open/close push/pop one scope); '
                       '(2) define_variable, declare_import, declare_variable, open/close_declaration, open/close_recursion each against that view; '
                       '(3) the whole body of resolve(): whenever it returns Ok, no module declaration reuses an unqualified name in scope, every use has a binder, and the sequence of definition-slot writes equals '
                       'the one of a lexical resolver: at each Variable node, the innermost-first lookup of (identifier, qualifier) in [built-ins < imports under their qualifier < all declarations of the module] followed by the scopes of the '
-                      'declarations/rec expressions that are open (started, not yet ended) at that point of the walk. '
-                      'The DYNAMIC half (the evaluator\'s scope stack agrees with these static bindings for all call shapes) is a whole-evaluation invariant and is not decided: level other.',
+                      'declarations/rec expressions that are open at that point of the walk; '
+                      '(4) property lemmas: when the event sequence is the pre/post-order walk of a tree, that stack IS the tree-defined lexical environment (environment of a child = environment of its parent extended by the parent\'s binders; siblings share it), '
+                      'and in the module scope a declared name denotes its declaration wherever it stands in the file, any other name keeps its imported / built-in meaning. '
+                      'DYNAMIC half, function level only: Context::{push_scope,pop_scope,lookup_binding} against a stack of maps (lookup innermost-first), eval_binding returns the innermost frame\'s value, eval_variable evaluates the node chosen by the resolver, '
+                      'eval_application evaluates every argument in the caller\'s stack and the body under exactly one more frame holding exactly the callee\'s parameters, eval_recursion likewise for the rec binder, and each leaves the stack balanced. '
+                      'That the dynamic stack therefore agrees with the static binding for ALL call shapes is a whole-evaluation invariant across ~25 mutually recursive eval_* functions and is not decided: level other.',
         'level_note': 'ASSUMED: stdlib::import declares the built-ins into the innermost scope (pinned text); generational_indextree `traverse` yields the Start/End events of the subtree (uninterpreted sequence; '
-                      'that Start/End are well bracketed is NOT needed for the proof, only for reading "open" as "enclosing"); the derived Hash/Eq of Entry obey vstd\'s key model; Ident equality is text equality; '
-                      'External::new(node) identifies the node by (locator, index). Rule R-ghost (stated in DESIGN.md): the RefCell write Core.define is a push on a ghost log threaded as an erased parameter. '
-                      'Rule R9: the iterator chain of Env::lookup is compiled to an index loop. Observed and recorded, not a violation of a stated clause: a module declaration that reuses the name of an unqualified import or of a built-in is rejected '
-                      '("identifier already exists") instead of shadowing it.',
+                      'the proof of resolve() does not need well-bracketing, only the tree reading of lemma (4) does and states it as a hypothesis); the derived Hash/Eq of Entry and Ident obey vstd\'s key model; Ident equality is text equality; '
+                      'External::new(node) identifies the node by (locator, index); eval_any (dispatcher, pinned text) leaves the scope stack balanced on Ok and satisfies the C01 preservation relation; preservation at the applied variable (identity shim `preserved_at`); '
+                      'the scope-id counter does not overflow u64 (one `assume`, listed). Rule R-ghost: the RefCell write Core.define is a push on a ghost log threaded as an erased parameter (R10). '
+                      'Rules R9 (iterator first-element pipeline -> index loop), R11 (map+collect::<Result<Vec<_>>>()? -> loop), R12 (for over zip -> index loop) are std-semantics rewrites, logged. '
+                      'Observed and recorded, not a violation of a stated clause: a module declaration that reuses the name of an unqualified import or of a built-in is rejected ("identifier already exists") instead of shadowing it.',
         'design_ref': 'DESIGN.md section 12.8',
-        'explanation': 'The property was first listed not applicable; rule R9 (iterator pipeline -> loop), rule R10/R-ghost (ghost parameter for interior-mutability writes) and a ghost syntax-tree shim brought env.rs and all of resolve.rs within Verus\' reach. '
-                       'The resolver half is proved for all programs; the evaluator half stays out of reach and is named under not_decided.',
-        'assumptions': ['stdlib::import contract (pinned text)', 'traverse() event sequence is the walk of the tree (trusted dependency)', 'loader hands resolve a module set containing every joinable import (C10)', 'Entry key model', 'parser node accessors as an opaque tree with ghost structure'],
-        'not_decided': ['the evaluator\'s dynamic scope stack (Context::lookup_binding, eval_application, eval_recursion) agrees with the static binding for all call shapes', 'that the value of an identifier is the one bound at its binder (second sentence of the statement)',
-                        'which of two same-named declarations from two unqualified imports wins is fixed (the later import) but not demanded by the statement'],
+        'explanation': 'The property was first listed not applicable; rules R9-R12, `subst-re` and a ghost syntax-tree shim brought env.rs, all of resolve.rs and the scope-handling functions of eval.rs within Verus\' reach. '
+                       'The resolver half is proved for all programs; the evaluator half is proved function by function (stack discipline), and the global agreement invariant is named under not_decided.',
+        'assumptions': ['stdlib::import contract (pinned text)', 'traverse() event sequence is the walk of the tree (trusted dependency)', 'loader hands resolve a module set containing every joinable import (C10)', 'Entry / Ident key model',
+                        'parser node accessors as an opaque tree with ghost structure', 'eval_any leaves the scope stack balanced on Ok (assumed frame, pinned text)', 'preservation (C01) at eval_any and at the applied variable',
+                        'eval_binding is called with the binder\'s frame on the stack (precondition, not discharged at call sites: eval_any is assumed)', 'scope-id counter below 2^64'],
+        'not_decided': ['that the evaluator\'s dynamic scope stack agrees with the static binding for all call shapes (whole-evaluation invariant; function-level building blocks are proved)',
+                        'arity: that every call supplies at least as many arguments as the callee has parameters (inference), so the callee frame holds ALL parameters',
+                        'eval_declaration (reference / recursion bookkeeping), eval_any dispatcher', 'which of two same-named declarations from two unqualified imports wins is fixed (the later import) but not demanded by the statement'],
     },
     'C10': {
         'units': ['c10'],
